@@ -108,6 +108,14 @@ def run(chk):
             created, err = export(raw, os.path.join(work, "t"))
             recs.append(dict(created=created, err=err or ""))
             meta.append(batch)
+        # method names with separators whose first piece, prefixed by the class' simple name, is a directory that another class created
+        # (<out>/p/X/X m/ from class Lp/X/X m; -- then "X m/../../.." in a file name of class Lp/X; resolves)
+        for ups in range(1, 6):
+            batch = [(["p", "X", "X m"], ["n"]), (["p", "X"], ["m"] + [".."] * ups + ["escaped%d" % ups]), (["q"], ["m", "..", "x"])]
+            raw = make_dex(batch)
+            created, err = export(raw, os.path.join(work, "t"))
+            recs.append(dict(created=created, err=err or ""))
+            meta.append(batch)
         # random names with other path tricks
         for _ in range(10 if quick else 200):
             batch = []
